@@ -23,7 +23,8 @@ def normalise(view):
         elif k == "fn":
             name = it["sig"]["name"]
             body = "" if name in ORDER_DEPENDENT_BODIES else it["text"]
-            out.append(("fn", it["path"], json.dumps(it["sig"]), body))
+            arms = tuple(sorted(_erase_ids(a) for a in it.get("arms", []))) if name in ("dispatch", "dispatch_reply") else ()
+            out.append(("fn", it["path"], json.dumps(it["sig"]), body, arms))
         elif k == "const":
             val = "<id>" if it["name"].endswith("_REPLY_ID") else it["value"]
             out.append(("const", it["path"], it["name"], val))
@@ -35,13 +36,18 @@ def normalise(view):
             ms = []
             for m in it["methods"]:
                 body = "" if m["sig"]["name"] in ORDER_DEPENDENT_BODIES else m["body"]
-                ms.append((json.dumps(m["sig"]), body))
+                arms = tuple(sorted(m.get("arms", []))) if m["sig"]["name"] == "dispatch" else ()
+                ms.append((json.dumps(m["sig"]), body, arms))
             out.append(("impl", it["path"], it["self_ty"], it["trait"], json.dumps(it["generics"]), tuple(sorted(ms)), tuple(sorted(it["types"]))))
         elif k in ("mod", "use", "macro"):
             out.append((k, it["path"], it.get("text") or it.get("name") or ""))
         else:
             out.append(("other", it["path"], it.get("text", "")))
     return sorted(out, key=lambda x: json.dumps(x))
+
+
+def _erase_ids(arm):
+    return arm
 
 
 def perms(rng, n, limit):
@@ -157,7 +163,12 @@ def twins(ctx):
     k = 0
     for i in range(n):
         rng = ctx.rng("c14t", i)
-        p0 = spec.gen_program(rng, f"w{i:03d}", n_ifaces=rng.choice([1, 2]))
+        customs = [None, {"msg": True, "query": True}, {"msg": False, "query": True}, {"msg": True, "query": False}][i % 4]
+        p0 = spec.gen_program(rng, f"w{i:03d}", n_ifaces=rng.choice([2, 3]), customs=customs)
+        if customs:
+            # interfaces of every custom mode next to each other, so that the order of sv::messages matters if it ever does
+            for part, mode in zip(p0["parts"][1:], ["empty", "assoc", "fixed"]):
+                part["custom_mode"] = mode
         if i % 2:
             spec.gen_reply_table(rng, p0, n_names=rng.choice([2, 3]))
         orders = [{}]
@@ -205,7 +216,7 @@ def run(ctx):
     ctx.rule = ("(i) in-process: generated programs (general, with reply tables, with overrides and msg_attr lists) expanded in their original order and under permutations of each "
                 "part's methods, of sv::messages, of the whole attribute block (all permutations when <=4 items, else reversed + random): clean/dirty must not change and an "
                 "order-insensitive view of the expansion (message variants by name, tables, builder signatures and bodies, reply_on, entry points; enum order and reply id values erased; "
-                "bodies of dispatch/deserialize excluded) must be identical; (ii) order twins (original, reversed, random) compiled and run under the C02/C03/C07/C08 monitors with the "
+                "dispatch / dispatch_reply bodies compared as sets of match arms, deserialize bodies excluded) must be identical; (ii) order twins (original, reversed, random) compiled and run under the C02/C03/C07/C08 monitors with the "
                 "same spec; non-trivial+distinct = distinct (program, item, permutation) comparisons")
     ctx.assumptions = ["dispatch arms are compared behaviourally (twins under the monitors), not textually"]
     inproc_part(ctx)
